@@ -860,7 +860,8 @@ func (c *Conn) advanceFrame() (int, error) {
 	if frameType == continuationFrame || frameType == TextMessage || frameType == BinaryMessage {
 
 		c.readLength += c.readRemaining
-		if c.readLimit > 0 && c.readLength > c.readLimit {
+		// The readLength is negative when overflow, for a large readRemaining.
+		if c.readLimit > 0 && (c.readLength > c.readLimit || c.readLength < 0) {
 			c.WriteControl(CloseMessage, FormatCloseMessage(CloseMessageTooBig, ""), time.Now().Add(writeWait))
 			return noFrame, ErrReadLimit
 		}
